@@ -3,6 +3,6 @@ CONSTANTS
  DrainBug = TRUE
  LinkCode = TRUE
  DupPathBug = TRUE
- Ids <- MidIds
+ Ids <- MidBfsIds
 INVARIANTS PropHoldsButKnown KnownReproduced Ordered PassBound
 CHECK_DEADLOCK TRUE
